@@ -41,6 +41,7 @@ PROPS["C13"] = dict(
          timeout={"quick": 450, "thorough": 1200}, mem_gb=6,
          bounds=_C13_BOUNDS + "; assignment onto an empty mesh, self-assignment, copy of a copy (intermediate destroyed before the checks): equality checks + first chunk of mutations (delete_vertex of vertices 0 and 1); quick also runs that chunk for the plain TopologyKernel with copy construction / assignment onto a non-empty mesh"),
     dict(name="c13-mixed", harness="C13_mixed.cpp", entries=["harness_c13_mixed"], units=C13_MIXED_UNITS, unwind=26, unwindset=["strlen.0:64", "bcmp.0:64"], eh=False, checks="mem",
+         witness_any=True,   # the end-of-harness witness is instantiated once per kernel pair (3 copies); a shard (one pair) reaches exactly its own copy
          object_bits=13, tiers=["thorough"], shards=[{0: k, 1: p} for k in (0, 1, 2) for p in (0, 1)], timeout=1200, mem_gb=8,
          bounds="mixed-type assignment through GeometryKernel's templated operator=: tetrahedral <- polyhedral and polyhedral <- tetrahedral (source: one tetrahedron, the latter built "
                 "through the tetrahedral kernel's add_face/add_cell overrides), hexahedral <- polyhedral (source B_LOWDIM, no cells); 0-1 pending deferred deletion; symbolic positions and "
